@@ -95,7 +95,7 @@ func (n *Node) setPath(paths ...string) {
 
 func (n *Node) validatePath() error {
 	invalidChars := "/" // NOTE: ディレクトリ名に含めてはまずそうなものをここに追加する
-	if strings.ContainsAny(n.name, invalidChars) {
+	if strings.ContainsAny(n.name, invalidChars) || n.name == "" || n.name == "." || n.name == ".." {
 		return fmt.Errorf("invalid node name: %s", n.name)
 	}
 	if !fs.ValidPath(n.path()) {
